@@ -450,7 +450,10 @@ def xrepoLine (s : HistState) (t : List String) : Option String :=
               let yb := min (ib + (if fromB then fb else 0)) U64_MAX
               if slack = 0 then (0, 0, U64_MAX, U64_MAX)
               else if slack = 1 then (xa, xb, ya, yb)
-              else if fromA then (xa, xb, ya - 1, yb) else (min (xa + 1) U64_MAX, xb, ya, yb)
+              else if slack = 2 then (if fromA then (xa, xb, ya - 1, yb) else (min (xa + 1) U64_MAX, xb, ya, yb))
+              else if slack = 3 then (xa, xb, ya - 1, yb)
+              else if slack = 4 then (xa, xb, ya, yb - 1)
+              else (xa, min (xb + 1) U64_MAX, ya, yb)
           match run lims.1 lims.2.1 lims.2.2.1 lims.2.2.2 with
           | .error e => pure ("err " ++ e.name)
           | .ok (ta, fa, fromA, tb, fb, fromB, ia, ib) =>
